@@ -762,6 +762,28 @@ func (g *disGen) listing(maxFuncs, maxSites, noise int) []string {
 	}
 	for f := 1 + rng.Intn(maxFuncs); f > 0; f-- {
 		lines = append(lines, g.textLine())
+		if rng.Intn(60) == 0 {
+			// a very long function body (beyond any fixed window a parser might keep) that ends in a
+			// number nobody consumed; the next function starts with a site that loads no number itself
+			g.tag("listing:function-longer-than-1024-lines")
+			n := []int{1000, 1021, 1022, 1023, 1024, 1025, 1100, 1500, 2047, 2048, 3000, 5000}[rng.Intn(12)]
+			for k := 0; k < n; k++ {
+				lines = append(lines, g.ins(g.pick(disFillers)))
+			}
+			if rng.Intn(2) == 0 {
+				lines = append(lines, g.ins(fmt.Sprintf("MOVQ $%s, 0(SP)", g.numText())))
+			} else {
+				lines = append(lines, g.ins(fmt.Sprintf("MOVL $%s, AX", g.numText())))
+			}
+			lines = append(lines, g.fillers(2)...)
+			lines = append(lines, g.textLine())
+			if rng.Intn(2) == 0 {
+				lines = append(lines, g.ins("CALL "+g.pick(disCallees)))
+			} else {
+				lines = append(lines, g.ins(g.rawIns()))
+			}
+			g.sites++
+		}
 		ns := rng.Intn(maxSites + 1)
 		if ns == 0 {
 			lines = append(lines, g.fillers(4)...)
